@@ -334,7 +334,9 @@ func (ex *Exec) doFieldAddr(fr *Frame, st *State, x *ssa.FieldAddr) Val {
 	nl := *loc
 	nl.Prefix = loc.Prefix + "." + f.Name()
 	nl.T = f.Type()
-	return Val{T: x.Type(), L: []*Term{UF("interior", SInt, locBaseTerm(loc), Int(int64(len(nl.Prefix)*131+x.Field)))}, Loc: &nl}
+	ip := UF("interior", SInt, locBaseTerm(loc), Int(int64(len(nl.Prefix)*131+x.Field)))
+	ex.assume(st, Ne(ip, Int(0))) // the address of a field of an existing object is never nil
+	return Val{T: x.Type(), L: []*Term{ip}, Loc: &nl}
 }
 
 func locBaseTerm(l *Loc) *Term {
@@ -365,7 +367,9 @@ func (ex *Exec) doIndexAddr(fr *Frame, st *State, x *ssa.IndexAddr) Val {
 		arr, off, ln := ex.sliceParts(base)
 		ex.boundsCheck(st, idx, ln, x.Pos())
 		loc := &Loc{Kind: locElem, Base: arr, Off: off, Idx: idx, Obj: u.Elem(), T: u.Elem()}
-		return Val{T: x.Type(), L: []*Term{UF("interior", SInt, arr, Add(off, idx))}, Loc: loc}
+		ip := UF("interior", SInt, arr, Add(off, idx))
+		ex.assume(st, Ne(ip, Int(0))) // the address of an element inside the bounds is never nil
+		return Val{T: x.Type(), L: []*Term{ip}, Loc: loc}
 	case *types.Pointer:
 		at := types.Unalias(u.Elem()).Underlying().(*types.Array)
 		ex.boundsCheck(st, idx, Int(at.Len()), x.Pos())
@@ -373,7 +377,9 @@ func (ex *Exec) doIndexAddr(fr *Frame, st *State, x *ssa.IndexAddr) Val {
 			unsupported("index into a local array variable")
 		}
 		loc := &Loc{Kind: locElem, Base: base.S(), Idx: idx, Obj: at.Elem(), T: at.Elem()}
-		return Val{T: x.Type(), L: []*Term{UF("interior", SInt, base.S(), idx)}, Loc: loc}
+		ip := UF("interior", SInt, base.S(), idx)
+		ex.assume(st, Ne(ip, Int(0)))
+		return Val{T: x.Type(), L: []*Term{ip}, Loc: loc}
 	}
 	unsupported("IndexAddr on %v", x.X.Type())
 	return Val{}
